@@ -1849,6 +1849,8 @@ def check(run):
              'remote_addr / access_route / port / netloc gives the same value, never ValueError (shared with C06 R15)', floor=2)
     run.rule('R16', r16_text_index_in_range, 'an integer index x[0] / x[-1] / x[k] into header text only where the text is known long enough '
              '(every function R1 examines; discharges "in-range subscripts are total")', floor=14)
+    run.rule('R17', r17_content_length_sign, 'content_length refuses exactly the negative values (sign partition of the converted header, both stacks)', floor=4)
+    run.rule('R18', r18_cookie_unquote_guard, 'the hoisted test in front of _unquote() holds for every DQUOTE-wrapped cookie value with something between the quotes', floor=1)
 
 
 # ---------------------------------------------------------------------------
@@ -2263,3 +2265,306 @@ def _int_index(s) -> Optional[int]:
             and isinstance(s.operand.value, int) and not isinstance(s.operand.value, bool):
         return -s.operand.value
     return None
+
+
+# ---------------------------------------------------------------------------
+# R17 Content-Length: the sign partition of the converted value
+# ---------------------------------------------------------------------------
+
+def _int_const(e) -> Optional[int]:
+    if isinstance(e, ast.Constant) and isinstance(e.value, int) and not isinstance(e.value, bool):
+        return e.value
+    if isinstance(e, ast.UnaryOp) and isinstance(e.op, ast.USub) and isinstance(e.operand, ast.Constant) \
+            and isinstance(e.operand.value, int) and not isinstance(e.operand.value, bool):
+        return -e.operand.value
+    return None
+
+
+_CMP = {ast.Lt: lambda a, b: a < b, ast.LtE: lambda a, b: a <= b, ast.Gt: lambda a, b: a > b, ast.GtE: lambda a, b: a >= b,
+        ast.Eq: lambda a, b: a == b, ast.NotEq: lambda a, b: a != b}
+
+
+def _int_guard_consts(e, is_var) -> List[int]:
+    return [c for x in walk_self(e) for c in [_int_const(x)] if c is not None]
+
+
+def _int_guard_eval(e, is_var, n: int, where: str):
+    """Truth of a guard over the converted integer for the value n; None when the guard does not talk about it."""
+    if not any(is_var(x) for x in walk_self(e)):
+        return None
+    if isinstance(e, ast.UnaryOp) and isinstance(e.op, ast.Not):
+        v = _int_guard_eval(e.operand, is_var, n, where)
+        return None if v is None else (not v)
+    if isinstance(e, ast.BoolOp):
+        vals = [_int_guard_eval(v, is_var, n, where) for v in e.values]
+        if isinstance(e.op, ast.And):
+            return False if any(v is False for v in vals) else None if any(v is None for v in vals) else True
+        return True if any(v is True for v in vals) else None if any(v is None for v in vals) else False
+    if is_var(e):
+        return n != 0
+    if isinstance(e, ast.Compare):
+        terms = [e.left] + list(e.comparators)
+        vals = []
+        for t in terms:
+            if is_var(t):
+                vals.append(n)
+            else:
+                c = _int_const(t)
+                if c is None:
+                    raise UnknownIdiom('%s: the converted value is compared with something that is not an integer constant: %s' % (where, short(e, 80)))
+                vals.append(c)
+        for op, a, b in zip(e.ops, vals, vals[1:]):
+            fn = _CMP.get(type(op))
+            if fn is None:
+                raise UnknownIdiom('%s: comparison %s of the converted value' % (where, short(e, 80)))
+            if not fn(a, b):
+                return False
+        return True
+    raise UnknownIdiom('%s: guard %s over the converted value has a shape this rule cannot read' % (where, short(e, 80)))
+
+
+def _inline_value_flags(f: Func, test, is_var):
+    """A guard spelled through a local flag (`quoted = len(value) > 2 and ...; if quoted:`) is read through the flag's
+    single definition; a flag bound more than once is an unknown idiom."""
+    import copy
+    binds = assignments(f)
+    flagged = {}
+    for nm, vals in binds.items():
+        about = [v for v in vals if v is not None and any(is_var(x) for x in walk_self(v))]
+        if about and not is_var(ast.Name(nm, ast.Load())):
+            if len(vals) != 1:
+                if any(isinstance(x, ast.Name) and x.id == nm for x in walk_self(test)):
+                    raise UnknownIdiom('%s: the flag %s a guard reads is bound more than once' % (f.qual, nm))
+                continue
+            if isinstance(vals[0], (ast.Compare, ast.BoolOp)) or (isinstance(vals[0], ast.UnaryOp) and isinstance(vals[0].op, ast.Not)):
+                flagged[nm] = vals[0]
+
+    class _T(ast.NodeTransformer):
+        def visit_Name(self, n):
+            if isinstance(n.ctx, ast.Load) and n.id in flagged:
+                return copy.deepcopy(flagged[n.id])
+            return n
+    if not any(isinstance(x, ast.Name) and x.id in flagged for x in walk_self(test)):
+        return test
+    return ast.fix_missing_locations(_T().visit(copy.deepcopy(test)))
+
+
+def r17_content_length_sign(run):
+    """`Content-Length = 1*DIGIT` (RFC 9110 8.6): every non-negative integer is a valid value, in particular 0 (each empty
+    POST/PUT); int() also accepts '-5', so exactly the negative values must be refused.  In the content_length accessor
+    of BOTH stacks the guards between `v = int(<header>)` and `return v` are evaluated on the sign partition of v -- the
+    cells are cut at every constant the guards compare v with, so each cell is decided exactly: a cell below 0 must
+    reach a raise, a cell at or above 0 must not.  (The same clause on both stacks is the parity C06 R2 asks for.)
+    W: `Content-Length: 0` answers 400 on WSGI (`v < 1` / `v <= 0`) while ASGI reads 0."""
+    from .c09_helpers import ReachingDefs, branch_facts
+    p = run.project
+    n_ob = 0
+    for cq in (WSGI_REQ, ASGI_REQ):
+        m = effective_members(p, cq).get('content_length')
+        if m is None or m.func is None:
+            raise AnchorError('%s.content_length not found' % cq)
+        f = m.func
+        cfg = cfg_of(f, p)
+        run.use_cfg(cfg)
+        rd = ReachingDefs(cfg)
+        conv = [d for d in rd.defs if d.value is not None and isinstance(d.value, ast.Call) and isinstance(d.value.func, ast.Name)
+                and d.value.func.id == 'int' and d.how == 'assign']
+        if len(conv) != 1:
+            raise UnknownIdiom('%s: expected one `v = int(...)` conversion, found %d' % (f.qual, len(conv)))
+        var = conv[0].name
+
+        def is_var(x, var=var):
+            return isinstance(x, ast.Name) and x.id == var
+
+        if len([d for d in rd.defs if d.name == var]) != 1:
+            raise UnknownIdiom('%s: %s is bound more than once' % (f.qual, var))
+        rets = [n for n in cfg.live_nodes() if n.kind == 'stmt' and isinstance(n.ast, ast.Return) and n.ast.value is not None
+                and is_var(n.ast.value) and rd.at(n.id, var)]
+        if not rets:
+            raise UnknownIdiom('%s: the converted value %s is not returned by name' % (f.qual, var))
+        raises = [n for n in cfg.live_nodes() if n.kind == 'stmt' and isinstance(n.ast, ast.Raise) and rd.at(n.id, var)]
+        guards = []   # (raise node, [(test, outcome) that talk about var], has other conditions)
+        consts = {0}
+        for rn in raises:
+            facts = [(_inline_value_flags(f, t, is_var), o) for (t, o) in branch_facts(cfg, rn.id)]
+            mine = [(t, o) for (t, o) in facts if any(is_var(x) for x in walk_self(t))]
+            if not mine:
+                continue
+            for t, _o in mine:
+                consts.update(_int_guard_consts(t, is_var))
+            guards.append((rn, mine))
+        if not guards:
+            raise UnknownIdiom('%s: no guard on the sign of %s between the conversion and the return (negative values are screened in a way '
+                               'this rule cannot read)' % (f.qual, var))
+        # also: a return of the value may itself sit under a guard
+        for r in rets:
+            for t, _o in branch_facts(cfg, r.id):
+                if any(is_var(x) for x in walk_self(t)):
+                    consts.update(_int_guard_consts(t, is_var))
+        cuts = sorted(consts)
+        reps = sorted({c + d for c in cuts for d in (-1, 0, 1)})   # one representative per cell of the partition cut at every constant
+
+        def raised(n):
+            hit = []
+            for rn, mine in guards:
+                vals = [_int_guard_eval(t, is_var, n, f.qual) for (t, _o) in mine]
+                if any(v is None for v in vals):
+                    raise UnknownIdiom('%s: guard of %s mixes the converted value with other conditions' % (f.qual, short(rn.ast, 60)))
+                if all(v == o for v, (_t, o) in zip(vals, mine)):
+                    hit.append(rn)
+            return hit
+
+        bad_nonneg = [(n, raised(n)) for n in reps if n >= 0 and raised(n)]
+        bad_neg = [n for n in reps if n < 0 and not raised(n)]
+        g0 = guards[0][0]
+        n_ob += 1
+        culprit = bad_nonneg[0][1][0] if bad_nonneg else g0
+        tests = ' ; '.join('%s is %s' % (short(t, 60), o) for (t, o) in [x for g_ in guards if g_[0] is culprit for x in g_[1]])
+        run.check(not bad_nonneg, '%s.content_length: no valid value (0 and every positive integer; cells cut at %s) is refused'
+                  % ('WSGI' if cq == WSGI_REQ else 'ASGI', cuts), f, 'raise when %s' % tests, where='%s:%s' % (f.file, culprit.lineno),
+                  witness=['%s = %d -> %s' % (var, n, short(h[0].ast, 80)) for n, h in bad_nonneg[:4]] or None,
+                  runtime_witness='Content-Length: 0 (every empty POST/PUT) answers 400 Invalid header value')
+        n_ob += 1
+        run.check(not bad_neg, '%s.content_length: every negative value int() lets through is refused'
+                  % ('WSGI' if cq == WSGI_REQ else 'ASGI'), f, 'negative %s: raise when %s' % (var, tests), where='%s:%s' % (f.file, g0.lineno),
+                  witness=['%s = %d is returned' % (var, n) for n in bad_neg[:4]] or None,
+                  runtime_witness='Content-Length: -1 is returned as -1 (a negative length reaches stream bounding)')
+    return n_ob
+
+
+# ---------------------------------------------------------------------------
+# R18 Cookie: the hoisted unquoting guard covers every quoted value
+# ---------------------------------------------------------------------------
+
+COOKIE_PARSER = 'falcon.request_helpers._parse_cookie_header'
+COOKIE_UNQUOTE = 'http.cookies._unquote'
+# quoted cookie-value = DQUOTE *octet DQUOTE (RFC 6265 4.1.1; http.cookies._unquote strips the pair from any text of length >= 2
+# that starts and ends with DQUOTE).  Cell NOT judged, one reason: the unmodified tree keeps `n=""` (length 2, nothing between the
+# quotes) as the two quote characters -- pre-existing deviation from the stdlib reading, not introduced by any seed; it is
+# recorded in the evidence and becomes an obligation when listed as a known finding.
+_COOKIE_UNJUDGED_LENGTHS = {2: 'empty quoted string `""`: read as two quote characters on the unmodified tree (pre-existing)'}
+
+
+def r18_cookie_unquote_guard(run):
+    """The test in front of `_unquote(value)` in _parse_cookie_header only saves a call ("hoisted from within
+    _unquote()"): it must hold for every value _unquote would change, i.e. for every length >= 2 with a DQUOTE first and
+    last.  The dominating tests about the value are evaluated on the cells length {0, 1, 2, 3, ... up to two past the
+    largest constant} x first character is DQUOTE x last character is DQUOTE (length 1: one character, both or neither).
+    W: `Cookie: n="x"` (what set_cookie('n', '=') produces, echoed back) is read as the three characters `"="`."""
+    from .c09_helpers import ReachingDefs, branch_facts, node_of, resolves_to
+    p = run.project
+    f = p.func(COOKIE_PARSER)
+    cfg = cfg_of(f, p)
+    run.use_cfg(cfg)
+    calls = [c for c in walk_no_nested(f.node) if isinstance(c, ast.Call) and resolves_to(p, f, c, COOKIE_UNQUOTE)]
+    if not calls:
+        raise AnchorError('%s does not call %s any more' % (COOKIE_PARSER, COOKIE_UNQUOTE))
+    n_ob = 0
+    for call in calls:
+        if len(call.args) != 1 or not isinstance(call.args[0], ast.Name):
+            raise UnknownIdiom('%s: %s' % (COOKIE_PARSER, short(call, 80)))
+        var = call.args[0].id
+        nid = node_of(cfg, call)
+
+        def is_var(x, var=var):
+            return isinstance(x, ast.Name) and x.id == var
+
+        raw_facts = [(t, _inline_value_flags(f, t, is_var), o) for (t, o) in branch_facts(cfg, nid)]
+        origin = {id(t2): t for (t, t2, _o) in raw_facts}
+        facts = [(t2, o) for (_t, t2, o) in raw_facts if any(is_var(x) for x in walk_self(t2))]
+        # the tests must be about the value that is unquoted: no rebinding of it between a test and the call
+        rd = ReachingDefs(cfg)
+        here = {id(d) for d in rd.at(nid, var)}
+        for t, _o in facts:
+            tn = node_of(cfg, origin[id(t)])
+            if {id(d) for d in rd.at(tn, var)} != here:
+                raise UnknownIdiom('%s: %s is rebound between the test %s and the unquoting' % (COOKIE_PARSER, var, short(t, 60)))
+        consts = [c for (t, _o) in facts for x in walk_self(t) for c in [_int_const(x)] if c is not None and c >= 0]
+        top = max([3] + consts) + 2
+
+        def ev(e, ln, first, last):
+            """None = not about the value."""
+            if not any(is_var(x) for x in walk_self(e)):
+                return None
+            if isinstance(e, ast.UnaryOp) and isinstance(e.op, ast.Not):
+                v = ev(e.operand, ln, first, last)
+                return None if v is None else (not v)
+            if isinstance(e, ast.BoolOp):
+                vals = [ev(v, ln, first, last) for v in e.values]
+                if isinstance(e.op, ast.And):
+                    return False if any(v is False for v in vals) else None if any(v is None for v in vals) else True
+                return True if any(v is True for v in vals) else None if any(v is None for v in vals) else False
+            if is_var(e):
+                return ln > 0
+            if isinstance(e, ast.Call) and isinstance(e.func, ast.Attribute) and is_var(e.func.value) and e.func.attr in ('startswith', 'endswith') \
+                    and len(e.args) == 1 and isinstance(e.args[0], ast.Constant) and e.args[0].value == '"':
+                return ln > 0 and (first if e.func.attr == 'startswith' else last)
+            if isinstance(e, ast.Compare) and len(e.ops) == 1:
+                a, b = e.left, e.comparators[0]
+                op = e.ops[0]
+                # len(value) <op> constant (either side)
+                for x, y, flip in ((a, b, False), (b, a, True)):
+                    if isinstance(x, ast.Call) and isinstance(x.func, ast.Name) and x.func.id == 'len' and len(x.args) == 1 and is_var(x.args[0]):
+                        c = _int_const(y)
+                        fn = _CMP.get(type(op))
+                        if c is None or fn is None:
+                            raise UnknownIdiom('%s: length test %s' % (COOKIE_PARSER, short(e, 60)))
+                        return fn(c, ln) if flip else fn(ln, c)
+                # value[0] / value[-1] / value[:1] / value[-1:] ==/!= '"'
+                for x, y in ((a, b), (b, a)):
+                    if isinstance(x, ast.Subscript) and is_var(x.value) and isinstance(y, ast.Constant) and y.value == '"' \
+                            and isinstance(op, (ast.Eq, ast.NotEq)):
+                        sl = x.slice
+                        pos = None
+                        k = _int_const(sl)
+                        if k in (0, -1):
+                            pos = 'first' if k == 0 else 'last'
+                            if ln == 0:
+                                raise _IndexOnEmpty()
+                        elif isinstance(sl, ast.Slice) and sl.step is None:
+                            lo, hi = (_int_const(sl.lower) if sl.lower is not None else None), (_int_const(sl.upper) if sl.upper is not None else None)
+                            if (lo, hi) in ((None, 1), (0, 1)):
+                                pos = 'first'
+                            elif (lo, hi) == (-1, None):
+                                pos = 'last'
+                            if pos and ln == 0:
+                                return isinstance(op, ast.NotEq)
+                        if pos is None:
+                            raise UnknownIdiom('%s: character test %s' % (COOKIE_PARSER, short(e, 60)))
+                        is_q = first if pos == 'first' else last
+                        return is_q if isinstance(op, ast.Eq) else (not is_q)
+            raise UnknownIdiom('%s: test %s about the cookie value has a shape this rule cannot read' % (COOKIE_PARSER, short(e, 80)))
+
+        missed = []
+        unjudged = []
+        for ln in range(2, top + 1):
+            ok = True
+            for t, o in facts:
+                try:
+                    v = _ev_and_order(ev, t, ln)
+                except _IndexOnEmpty:
+                    v = None
+                if v is None:
+                    raise UnknownIdiom('%s: test %s mixes the cookie value with other conditions' % (COOKIE_PARSER, short(t, 60)))
+                if v != o:
+                    ok = False
+            if not ok:
+                (unjudged if ln in _COOKIE_UNJUDGED_LENGTHS else missed).append(ln)
+        n_ob += 1
+        guard = ' and '.join(('%s' if o else 'not (%s)') % short(t, 80) for (t, o) in facts) or '<unconditional>'
+        run.check(not missed, 'a DQUOTE-wrapped cookie value of every length from 3 to %d (two past the largest constant of the guard) reaches %s: '
+                  'the hoisted guard is not stricter than the callee\'s own' % (top, COOKIE_UNQUOTE), f, guard, where=f.loc(call),
+                  witness=['length %d (%d character(s) between the quotes): kept with its quotes' % (ln, ln - 2) for ln in missed] or None,
+                  runtime_witness='Cookie: n="x" -> req.cookies[\'n\'] == \'"x"\'; set_cookie(\'n\', \'=\') echoed back reads \'"="\'')
+        for ln in unjudged:
+            run.sample({'cookie value cell not judged': 'length %d: %s' % (ln, _COOKIE_UNJUDGED_LENGTHS[ln])})
+    return n_ob
+
+
+class _IndexOnEmpty(Exception):
+    pass
+
+
+def _ev_and_order(ev, t, ln):
+    """a quoted value of length ln >= 2: first and last characters are DQUOTE"""
+    return ev(t, ln, True, True)
